@@ -51,6 +51,13 @@ def make_cases(ctx, nprob):
                     lines = g.problem_lines(p, reg) + [f"new {alg} {entry}", "x", "r", "rtr", "defect"]
                     cases.append(lines)
                     meta.append((p, S, alg, entry))
+                    if entry == "adj" and ctx.rng.random() < 0.5:
+                        # the same Adj object solves again with another algorithm (gama-g3 keeps one Adj and its
+                        # work matrices across algorithm switches and linearisation passes): same problem, so the
+                        # answers after the switch must meet the same specification
+                        alg2 = ctx.rng.choice([a for a in ALGS if a != alg])
+                        cases.append(lines + [f"set_alg {alg2}", "x", "r", "rtr", "defect"])
+                        meta.append((p, S, f"{alg}>{alg2}", entry))
     return cases, meta
 
 
@@ -139,6 +146,8 @@ def correspond(ctx, corr):
         if key not in refs:
             refs[key] = g.reference(p, S)
         bad = oracle(p, S, impl[i], refs[key])
+        if not bad and ">" in alg and len(impl[i]) >= 11:      # answers after set_alg on the same object
+            bad = ["after set_alg: " + b for b in oracle(p, S, impl[i][:2] + impl[i][7:11], refs[key])]
         if bad:
             corr.fail("; ".join(bad), {"stream": "ls", "ops": c, "subset": S}, f"{alg}/{entry}", " | ".join(impl[i]))
     tot = corr.stats.get("singular", 0) + corr.stats.get("regular", 0)
